@@ -606,7 +606,7 @@ func Spec() *mon.Spec {
 			"&less-than callbacks are strict weak orders; for arbitrary callbacks the documentation promises nothing",
 		},
 		ChildSetup: setup,
-		Phases:     []mon.Phase{{Name: "order", Quick: 6000, Thorough: 100000, Run: runOrder}},
+		Phases:     []mon.Phase{{Name: "order", Quick: 18000, Thorough: 100000, Run: runOrder}},
 		Floors: map[string]int{"distinct_nontrivial": 1200, "adjacent_ties_in_expected_output": 20000, "error_scenarios": 500, "reverse": 600, "inputs_from_pipe": 300,
 			"len_0_12": 500, "len_13_41": 500, "len_42_300": 500, "length": 300, "scenario_default": 400, "scenario_total": 150, "scenario_key-first": 80,
 			"scenario_less-than-compare": 30, "scenario_err-less-than-throws": 30, "scenario_err-key-throws": 30, "less_than_throws_at_last_call": 8, "less_than_throws_after_output": 10},
